@@ -23,9 +23,9 @@ Fails(ev) ==
          (IF ~ev.terminated THEN {"Terminates"} ELSE {})
          \* tree by tree the records of the single-threaded run (for FBP/TBE: the supports), whenever that run is
          \* itself complete (no erroneous tree cutting it short)
-         \cup (IF ev.terminated /\ ev.seqterminated /\ (~HasErrItem(ev) \/ ev.pipeline \in {"compare", "cmpw"}) /\ ~ev.same
+         \cup (IF ev.terminated /\ ev.seqterminated /\ (~HasErrItem(ev) \/ ev.pipeline \in {"compare", "cmpw", "hashmap"}) /\ ~ev.same
                THEN {"ResultsOfTheSingleThreadedRun"} ELSE {})
-         \cup (IF ev.terminated /\ HasErrItem(ev) /\ ~ev.errsurfaced THEN {"ErrorReachesTheCaller"} ELSE {})
+         \cup (IF ev.terminated /\ HasErrItem(ev) /\ ev.pipeline # "hashmap" /\ ~ev.errsurfaced THEN {"ErrorReachesTheCaller"} ELSE {})
          \cup (IF ev.terminated /\ ~HasErrItem(ev) /\ ev.errsurfaced /\ ~ev.seqerr THEN {"NoSpuriousError"} ELSE {})
     [] ev.kind = "RaceReport" -> IF ev.races > 0 THEN {"NoDataRace"} ELSE {}
     [] OTHER -> {}
